@@ -412,3 +412,6 @@ pub use update::verif_hooks as verif_metadata_update;
 #[cfg(scylla_verif)]
 #[allow(missing_docs)]
 pub use merge_channel::verif_hooks_b as verif_merge_channel_b;
+#[cfg(scylla_verif)]
+#[allow(missing_docs)]
+pub use worker::verif_hooks as verif_fetch_plan;
